@@ -97,7 +97,7 @@ def snapshot(topo):
     nodes, edges = [], []
     if g is not None:
         for n, d in g.nodes(data=True):
-            props = sorted([k, d[k]] for k in d if k not in CLASS_KEYS)
+            props = sorted([k, wire_value(d[k])] for k in d if k not in CLASS_KEYS)
             nodes.append([d.get("Class"), d.get("NodeID"), d.get("Name"), d.get("Type"), props])
         for a, b, d in g.edges(data=True):
             ends = sorted([[g.nodes[a].get("Class"), g.nodes[a].get("NodeID")], [g.nodes[b].get("Class"), g.nodes[b].get("NodeID")]])
@@ -135,6 +135,11 @@ def mk_value(spec):
         return spec[1]
     if k == "none":
         return None
+    if k == "tuple":          # ["tuple", [..]]: a value JSON cannot spell
+        return tuple(spec[1])
+    if k == "tags":           # ["tags", ["blue", ...]]
+        from fim.slivers.tags import Tags
+        return Tags(*spec[1])
     if k == "rinfo":
         from fim.slivers.capacities_labels import ReservationInfo
         return ReservationInfo(reservation_state=spec[1])
@@ -145,6 +150,15 @@ def mk_value(spec):
         import fim.user as _fu
         return getattr(_fu, spec[1])[spec[2]]
     raise ValueError("bad value spec %r" % (spec,))
+
+
+def wire_value(v):
+    """graph property value as the Lean model / the snapshot sees it: strings as they are, anything else (a value a sliver
+    setter without a type check let through: int / float / bool / list / dict / tuple) as a tagged text that no string
+    property of the repo's codecs produces"""
+    if isinstance(v, str):
+        return v
+    return "<py:%s>%s" % (type(v).__name__, json.dumps(v, sort_keys=True, default=repr))
 
 
 def _sliver_codec(kind):
@@ -179,7 +193,7 @@ def prop_args(kind, kw):
         d = to_dict(s)
         for k in d:
             if k not in base or base[k] != d[k]:
-                out.append([k, d[k]])
+                out.append([k, wire_value(d[k])])
     return out
 
 
@@ -198,7 +212,7 @@ def prop_args_values(kind, kv):
         d = to_dict(s)
         for k in d:
             if k not in base or base[k] != d[k]:
-                out.append([k, d[k]])
+                out.append([k, wire_value(d[k])])
     return out
 
 
@@ -495,7 +509,10 @@ class Session:
             elif k in ("node_remove_service", "remove_component"):
                 line["parent"] = H("parent").node_id
                 if k == "remove_component":
-                    call = lambda: H("parent").remove_component(name=op["name"])
+                    if op.get("via") == "remove_storage":       # Node.remove_storage: the same request for the model
+                        call = lambda: H("parent").remove_storage(name=op["name"])
+                    else:
+                        call = lambda: H("parent").remove_component(name=op["name"])
                 else:
                     call = lambda: H("parent").remove_network_service(name=op["name"])
                 post = lambda r: (None, None, None)
